@@ -27,6 +27,34 @@ ValuesFor(w) == <<0..63, {0}, {w - 1}, {b \in 0..63 : b % 2 = 0}, (0..w) \cap (0
 Grid == <<0, 1, 7, 8, 9, 63, 64, 65, 127, 128, 129, 511, 512, 513, 4095, 4096, 4097, 65535, 65536, 1000003, 16777215>>
 Divs == <<1, 2, 3, 7, 8, 13, 64, 4096, 1000003>>
 
+\* Rounding helpers on values that do not fit a TLC integer: a value is 4 little-endian limbs of 16 bits.  The quotient
+\* rounded up is computed by schoolbook long division by a small divisor (the running remainder stays below d * 2^16 < 2^31).
+BigVals == <<<<1, 0, 0, 32>>,            \* 2^53 + 1
+             <<1, 0, 0, 4096>>,          \* 2^60 + 1
+             <<1, 0, 0, 16384>>,         \* 2^62 + 1
+             <<0, 0, 0, 32768>>,         \* 2^63
+             <<65535, 65535, 65535, 32767>>,   \* 2^63 - 1
+             <<61439, 65535, 65535, 65535>>,   \* 2^64 - 4097
+             <<12345, 54321, 7, 1>>,
+             <<0, 0, 1, 0>>>>            \* 2^32
+BigDivs == <<1, 2, 3, 7, 8, 64, 4096>>
+LongDiv(v, d) ==      \* <<quotient limbs (little-endian), remainder>>
+    LET step3 == (0 * 65536 + v[4]) q3 == step3 \div d r3 == step3 % d
+        step2 == r3 * 65536 + v[3] q2 == step2 \div d r2 == step2 % d
+        step1 == r2 * 65536 + v[2] q1 == step1 \div d r1 == step1 % d
+        step0 == r1 * 65536 + v[1] q0 == step0 \div d r0 == step0 % d
+    IN <<<<q0, q1, q2, q3>>, r0>>
+Inc(v) == LET a0 == v[1] + 1 c0 == a0 \div 65536
+              a1 == v[2] + c0 c1 == a1 \div 65536
+              a2 == v[3] + c1 c2 == a2 \div 65536
+          IN <<a0 % 65536, a1 % 65536, a2 % 65536, v[4] + c2>>
+CeilDiv(v, d) == LET qr == LongDiv(v, d) IN IF qr[2] = 0 THEN qr[1] ELSE Inc(qr[1])
+MulSmall(v, m) == LET a0 == v[1] * m c0 == a0 \div 65536
+                      a1 == v[2] * m + c0 c1 == a1 \div 65536
+                      a2 == v[3] * m + c1 c2 == a2 \div 65536
+                  IN <<a0 % 65536, a1 % 65536, a2 % 65536, v[4] * m + c2>>      \* the top limb may exceed 16 bits: the product does not fit 64 bits
+Fits(v) == v[4] < 65536
+
 VARIABLE s
 Init == \/ Kind = "rw" /\ \E off \in Offsets : \E w \in 1..64 : off + w <= Total /\ s = <<off, w>>
         \/ Kind = "sel" /\ \E byte \in 1..255 : \E lane \in 0..7 : \E full \in BOOLEAN : s = <<byte, lane, full>>
@@ -67,6 +95,15 @@ Case ==
                              words_to_bits |-> n * 64, bits_to_words |-> (n + 63) \div 64, round_bits |-> ((n + 63) \div 64) * 64,
                              split |-> <<n \div 64, n % 64>>,
                              div |-> [d \in 1..Len(Divs) |-> (n + Divs[d] - 1) \div Divs[d]]]],
-            divs |-> Divs]
+            divs |-> Divs,
+            \* div_round_up(v, d), bits_to_words = ceil(v / 64), bytes_to_words = ceil(v / 8) and the two round-up functions
+            \* (only where the documented precondition v + d <= usize::MAX holds) on 64-bit values
+            big |-> [i \in 1..Len(BigVals) |-> LET v == BigVals[i] IN
+                        [v |-> v,
+                         div |-> [d \in 1..Len(BigDivs) |-> CeilDiv(v, BigDivs[d])],
+                         bits_to_words |-> CeilDiv(v, 64), bytes_to_words |-> CeilDiv(v, 8),
+                         round_bits |-> MulSmall(CeilDiv(v, 64), 64), round_bytes |-> MulSmall(CeilDiv(v, 8), 8),
+                         round_bits_fits |-> Fits(MulSmall(CeilDiv(v, 64), 64)), round_bytes_fits |-> Fits(MulSmall(CeilDiv(v, 8), 8))]],
+            bigdivs |-> BigDivs]
 Emit == PrintT(<<"REPLAY", ToJson(Case)>>)
 =============================================================================
